@@ -517,8 +517,62 @@ func (p *Path) opaqueStr(fn string, args []Value, max int) StrV {
 	s := p.freshStr(fmt.Sprintf("op_%s_%d", fn, p.nvar+1), max)
 	p.nvar++
 	s.A[0].Prov = &Prov{Fn: fn, Args: args}
+	p.constrainOpaque(fn, args, s)
 	p.memo[key] = s
 	return s
+}
+
+// constrainOpaque states what is known about the TEXT a stubbed formatter
+// produces (alphabet, length): enough for the code that splits on '/' or
+// compares with "null" to be decided as it is natively.
+func (p *Path) constrainOpaque(fn string, args []Value, s StrV) {
+	at := s.A[0]
+	alphabet := func(ok func(b *smt.Term) *smt.Term) {
+		for k := 0; k < at.Max; k++ {
+			b := smt.Select(at.Arr, smt.Int(int64(k)))
+			p.assert(smt.Implies(smt.Lt(smt.Int(int64(k)), at.Len), ok(b)))
+		}
+		// the same set, syntactically, for the string operations that can use it
+		var set [256]bool
+		for c := 0; c < 256; c++ {
+			set[c] = ok(smt.Int(int64(c))).IsTrue()
+		}
+		s.A[0].Alpha = &set
+	}
+	in := func(b *smt.Term, lo, hi byte) *smt.Term {
+		return smt.And(smt.Ge(b, smt.Int(int64(lo))), smt.Le(b, smt.Int(int64(hi))))
+	}
+	switch {
+	case fn == "FormatInt10" || fn == "itoa":
+		x := args[0].(IntV).T
+		p.assert(smt.Eq(at.Len, decimalLen(x)))
+		alphabet(func(b *smt.Term) *smt.Term { return smt.Or(in(b, '0', '9'), smt.Eq(b, smt.Int('-'))) })
+	case strings.HasPrefix(fn, "FormatFloat_"):
+		p.assert(smt.Ge(at.Len, smt.Int(1)))
+		alphabet(func(b *smt.Term) *smt.Term {
+			// digits, sign, point, exponent, and the letters of NaN / Inf
+			r := smt.Or(in(b, '0', '9'), smt.Eq(b, smt.Int('-')), smt.Eq(b, smt.Int('+')), smt.Eq(b, smt.Int('.')))
+			for _, c := range []byte("eENaInfp") {
+				r = smt.Or(r, smt.Eq(b, smt.Int(int64(c))))
+			}
+			return r
+		})
+	case fn == "TimeFormat_"+rfc3339NanoID:
+		// yyyy-mm-ddThh:mm:ss[.f]Z|+hh:mm; years of more than four digits are formatted too
+		p.assert(smt.Ge(at.Len, smt.Int(20)))
+		alphabet(func(b *smt.Term) *smt.Term {
+			r := smt.Or(in(b, '0', '9'), smt.Eq(b, smt.Int('-')), smt.Eq(b, smt.Int('+')), smt.Eq(b, smt.Int('.')), smt.Eq(b, smt.Int(':')))
+			return smt.Or(r, smt.Eq(b, smt.Int('T')), smt.Eq(b, smt.Int('Z')))
+		})
+	case strings.HasPrefix(fn, "TimeFormat_"):
+		p.assert(smt.Ge(at.Len, smt.Int(1)))
+		alphabet(func(b *smt.Term) *smt.Term {
+			return smt.Or(in(b, '0', '9'), smt.Eq(b, smt.Int('-')), smt.Eq(b, smt.Int('+')), smt.Eq(b, smt.Int('.')), smt.Eq(b, smt.Int(':')), in(b, 'A', 'Z'), in(b, 'a', 'z'), smt.Eq(b, smt.Int(' ')))
+		})
+	case fn == "btoa":
+		p.assert(smt.And(smt.Ge(at.Len, smt.Int(4)), smt.Le(at.Len, smt.Int(5))))
+		alphabet(func(b *smt.Term) *smt.Term { return in(b, 'a', 'z') })
+	}
 }
 
 func (e *Engine) registerMisc() {
